@@ -359,7 +359,9 @@ type fakeSource struct {
 func (f *fakeSource) Fetch(ctx context.Context, d ocispec.Descriptor) (io.ReadCloser, error) {
 	return io.NopCloser(&faultyReader{data: append(f.ps.payloadTrunc(), bytes.Repeat([]byte("x"), f.ps.Reader.Extra)...), spec: f.ps.Reader}), nil
 }
-func (f *fakeSource) Exists(ctx context.Context, d ocispec.Descriptor) (bool, error) { return true, nil }
+func (f *fakeSource) Exists(ctx context.Context, d ocispec.Descriptor) (bool, error) {
+	return true, nil
+}
 
 func (ps *PusherSpec) payloadTrunc() []byte {
 	data := ps.payload()
